@@ -70,6 +70,7 @@ def scenario(rng, tier):
     lines.append("posts")
     for i in range(n_subs):
         lines.append("pull " + hx(meta["subs"]["tag%d" % i]["plain"]))
+    lines.append("turnlog")
     return lines, meta
 
 
@@ -92,8 +93,28 @@ def slow_sibling(rng):
     a = ("fast-%d" % rng.below(10 ** 6)).encode()
     b = ("slow-%d" % rng.below(10 ** 6)).encode()
     lines = ["interval 10", "ctopic " + hx(t), "csub %s %s tagsib" % (hx(s), hx(t)), "script %s 200" % hx(a),
-             "script %s hang,200" % hx(b), "pub %s %s" % (hx(t), jl([hx(a), hx(b)])), "wait 11500", "posts"]
+             "script %s hang,200" % hx(b), "pub %s %s" % (hx(t), jl([hx(a), hx(b)])), "wait 11500", "posts", "turnlog"]
     meta = {"subs": {"tagsib": dict(sub=s, topic=t, plain=None)},
             "msgs": {hx(a): dict(tag="tagsib", outcomes=["200"], attrs="-"), hx(b): dict(tag="tagsib", outcomes=["hang", "200"], attrs="-")},
             "deleted": [], "after_delete": []}
+    return lines, meta
+
+
+def midround_delete(rng):
+    """A push round that is still handing out its messages (one POST every few milliseconds, none of
+    them answered) when the subscription is deleted: pushing stops with the deletion."""
+    t, s = tname("p", "tmid"), sname("p", "pushmid")
+    n = 150
+    lines = ["interval 10", "ctopic " + hx(t), "csub %s %s tagmid" % (hx(s), hx(t))]
+    msgs = {}
+    batch = []
+    for j in range(n):
+        data = ("mid-%d-%d" % (j, rng.below(10 ** 6))).encode()
+        lines.append("script tagmid:%s hang" % hx(data))
+        batch.append(hx(data))
+        msgs[hx(data)] = dict(tag="tagmid", outcomes=["hang"], attrs="-")
+    lines.append("pub %s %s" % (hx(t), jl(batch)))
+    lines += ["wait 120", "posts", "dsub " + hx(s), "posts", "wait 500", "posts"]
+    meta = {"subs": {"tagmid": dict(sub=s, topic=t, plain=None)}, "msgs": {}, "deleted": ["tagmid"], "after_delete": [],
+            "midround": {"tag": "tagmid", "n": n}, "extra_known": [("tagmid", d) for d in msgs]}
     return lines, meta
